@@ -276,7 +276,9 @@ func H09c() {
 		}
 		return b + "; "
 	}
-	m := `module m { namespace "urn:m"; prefix m; import x { prefix x; } typedef a { type ` + term(ba) + `} typedef b { type ` + term(bb) + `} typedef c { type ` + term(bc) + `} leaf l { type a; } }`
+	// a fourth typedef, declared in a container and used by nothing: its reference is checked all the same
+	bd := []string{"string", "nosuch", "zz:t", "d", "a"}[symChoice(5)]
+	m := `module m { namespace "urn:m"; prefix m; import x { prefix x; } typedef a { type ` + term(ba) + `} typedef b { type ` + term(bb) + `} typedef c { type ` + term(bc) + `} leaf l { type a; } container k { typedef d { type ` + bd + `; } } }`
 	x := `module x { namespace "urn:x"; prefix x; import m { prefix mm; } typedef tb { type mm:b; } }`
 	note(m)
 	ms, lerrs := hLoad(m, x)
@@ -311,6 +313,9 @@ func H09c() {
 			delete(seen, n)
 		}
 		walk(start)
+	}
+	if bd == "nosuch" || bd == "zz:t" || bd == "d" {
+		bad = true
 	}
 	if len(errs) > 0 {
 		reach("rejected")
